@@ -5,6 +5,7 @@
 //	crashchild <dir> delete <key>
 //	crashchild <dir> save-entity <name> <publen>
 //	crashchild <dir> get-entity <name> | list-entities
+//	crashchild <dir> fullfs <old length> <new length> <free pages>   (on a small file system of its own)
 //	crashchild <dir> transport           (hc.NewIPTransport on the directory: device, config load/save)
 package main
 
@@ -83,6 +84,66 @@ func main() {
 		mark("END")
 		if err != nil {
 			os.Exit(4)
+		}
+	case "fullfs":
+		// crashchild <dir> fullfs <old length> <new length> <free pages>: <dir> is a small file system of its own (the
+		// parent mounted a tmpfs there). A value is stored, the rest of the file system is filled up to <free pages>
+		// pages, the value is set again. Success means the new value is read back, failure that the previous one is.
+		oldN, _ := strconv.Atoi(os.Args[3])
+		newN, _ := strconv.Atoi(os.Args[4])
+		free, _ := strconv.Atoi(os.Args[5])
+		mk := func(n int, b byte) []byte {
+			v := make([]byte, n)
+			for i := range v {
+				v[i] = b + byte(i%7)
+			}
+			return v
+		}
+		st, err := util.NewFileStorage(dir)
+		if err != nil {
+			fmt.Println("RESULT infra", err)
+			return
+		}
+		oldV, newV := mk(oldN, 'o'), mk(newN, 'n')
+		if err := st.Set("k1", oldV); err != nil {
+			fmt.Println("RESULT infra first Set:", err)
+			return
+		}
+		st.Set("other", []byte("OTHER-VALUE"))
+		filler := dir + "/.filler"
+		f, err := os.Create(filler)
+		if err != nil {
+			fmt.Println("RESULT infra", err)
+			return
+		}
+		page := make([]byte, 4096)
+		pages := 0
+		for pages < 100000 {
+			if _, err := f.Write(page); err != nil {
+				break
+			}
+			pages++
+		}
+		f.Close()
+		if pages < free {
+			free = pages
+		}
+		os.Truncate(filler, int64(pages-free)*4096)
+		serr := st.Set("k1", newV)
+		st2, _ := util.NewFileStorage(dir)
+		got, gerr := st2.Get("k1")
+		oth, _ := st2.Get("other")
+		switch {
+		case string(oth) != "OTHER-VALUE":
+			fmt.Printf("RESULT violation another key reads %d bytes after the Set (error: %v)\n", len(oth), serr)
+		case serr == nil && (gerr != nil || string(got) != string(newV)):
+			fmt.Printf("RESULT violation Set reported success; the key reads %d bytes (err %v), the new value has %d\n", len(got), gerr, newN)
+		case serr != nil && (gerr != nil || string(got) != string(oldV)):
+			fmt.Printf("RESULT violation Set failed (%v); the key reads %d bytes (err %v) instead of the previous value of %d bytes\n", serr, len(got), gerr, oldN)
+		case serr == nil:
+			fmt.Println("RESULT ok stored")
+		default:
+			fmt.Println("RESULT ok refused")
 		}
 	case "get-entity":
 		// a look-up: nothing is written, and whatever the database does on the way must survive a kill as well
